@@ -1285,7 +1285,7 @@ func runDBs(c *kernel.Choices, p kernel.Params) (res *kernel.Result) {
 
 	nops := 40 + c.Intn(160)
 	if p.Tier == "thorough" {
-		nops = 80 + c.Intn(500)
+		nops = 80 + c.Intn(320)
 	}
 	w := []int{
 		20 + c.Intn(20), // 0 set
